@@ -354,6 +354,37 @@ impl Ctx {
                 })
                 .map(|_| json!({}))
             }
+            "SignMutualCloseRaw" => {
+                // the phase-1 entry point: the caller supplies the closing transaction itself
+                use bitcoin::{absolute::LockTime, transaction::Version, Amount, ScriptBuf, Sequence, Transaction, TxIn, TxOut, Witness};
+                use lightning_signer::node::SpendType;
+                use lightning_signer::util::test_utils::make_test_funding_wallet_addr;
+                let c = content(r["c"].as_str().unwrap());
+                let script = make_test_funding_wallet_addr(&self.fx.node, 1, SpendType::P2wpkh).script_pubkey();
+                let cp_script = make_test_funding_wallet_addr(&self.fx.node, 77, SpendType::P2wpkh).script_pubkey();
+                let path: bitcoin::bip32::DerivationPath =
+                    vec![bitcoin::bip32::ChildNumber::from_normal_idx(1).unwrap()].into();
+                let mut outs = vec![(TxOut { value: Amount::from_sat(c.to_holder - 1000), script_pubkey: script }, path)];
+                if c.to_cp > 0 {
+                    outs.push((TxOut { value: Amount::from_sat(c.to_cp), script_pubkey: cp_script }, vec![].into()));
+                }
+                // BIP 69 order, as the canonical closing transaction has it
+                outs.sort_by(|a, b| a.0.value.cmp(&b.0.value).then_with(|| a.0.script_pubkey.as_bytes().cmp(b.0.script_pubkey.as_bytes())));
+                let funding = self.cc.as_ref().map(|cc| cc.setup.funding_outpoint);
+                match funding {
+                    None => Err(Status::invalid_argument("harness: channel is not set up")),
+                    Some(outpoint) => {
+                        let tx = Transaction {
+                            version: Version::TWO,
+                            lock_time: LockTime::ZERO,
+                            input: vec![TxIn { previous_output: outpoint, script_sig: ScriptBuf::new(), sequence: Sequence::MAX, witness: Witness::new() }],
+                            output: outs.iter().map(|o| o.0.clone()).collect(),
+                        };
+                        let opaths: Vec<bitcoin::bip32::DerivationPath> = outs.iter().map(|o| o.1.clone()).collect();
+                        node.with_channel(id, |chan| chan.sign_mutual_close_tx(&tx, &opaths)).map(|_| json!({}))
+                    }
+                }
+            }
             "SignCp" => {
                 let c = content(r["c"].as_str().unwrap());
                 let pt = tree_point(&tree_of(r["t"].as_str().unwrap()), n);
